@@ -151,3 +151,6 @@ fn c17_k_twelve_star() {
   assert!(d.get_twelve_star().get_index() as i64 == spec::emod(db - start, 12), "twelve spirits start at the branch fixed by the month branch and advance with the day branch");
   kani::cover!(db == 0 && mb == 11, "twelve_star reachable");
 }
+
+// (28 mansions: the Kani harness over (weekday, pillar) pairs took 580 s and ended in spurious dealloc checks of the
+//  28-name tables; luminary == weekday and +1 per day are checked by execution for every date, c17_day_series.)
